@@ -950,7 +950,7 @@ DELETE FROM queue_items
 WHERE id IN (
   SELECT id FROM queue_items
   WHERE state = ?
-  ORDER BY received_at DESC
+  ORDER BY received_at DESC, id DESC
   LIMIT -1 OFFSET ?
 );
 `, string(StateDead), s.dlqMaxDepth)
